@@ -377,7 +377,16 @@ class Parser:
         Consume the current token as an rvalue, generating the code to evaluate
         it and to move the result into dest.
         """
-        code_gen = code_gen or self._code_gen
+        if code_gen is not None and code_gen is not self._code_gen:
+            # An expression or a routine call generates its code through
+            # self._code_gen: for the time being, that is the one given.
+            own_code_gen = self._code_gen
+            self._code_gen = code_gen
+            try:
+                return self._rvalue(dest)
+            finally:
+                self._code_gen = own_code_gen
+        code_gen = self._code_gen
         if self._current_token.is_mark('{'):
             return self.next_token() and self._rvalue_curly(dest, code_gen)
         if self._current_token.is_mark('['):
